@@ -403,6 +403,22 @@ def curated():
     return out
 
 
+def edge_grammars():
+    """Grammars at the edge of what the declarations allow (they may be refused; when they are accepted the parser must be right).
+    start_alias: a token that is given the end marker's code -1 and happens to be called `start`, used in a rule."""
+    g = from_text('S: a start | a', ())
+    for t in g['terms']:
+        if t['name'] == 'start':
+            t['num'] = -1
+    g2 = from_text('S: a EOF | a', ())
+    for t in g2['terms']:
+        if t['name'] == 'EOF':
+            t['num'] = -1
+    for gg in (g, g2):
+        gg['rules'][0]['coef'] = [1, 0]      # the action does not read the value of the alias
+    return {'start_alias': g, 'eof_alias': g2}
+
+
 def two_path_grammar(rnd):
     """Variations of `two_paths`: a shared item set reached through a state built from a low-numbered rule with a
     nonterminal after the dot plus a higher-numbered rule with a terminal after the dot, and through a state where
